@@ -189,6 +189,23 @@ def gen_case(rng, force_circular=None) -> dict:
         else:
             extent = [[max(0, start - padl), min(length, end + padr)]]
         subs.append({"label": f"sub{j}", "extent": extent, "sideloaded": rng.random() < 0.4})
+    # one area running all the way round from a start other than the origin: the region is the whole record as a
+    # two-part location
+    if circular and (len(protos) + len(subs) + n_genes) % 6 == 0:
+        start = STEP * (1 + (length // STEP) % max(1, n_genes - 1))
+        ring_extent = [[start, length], [0, start]]
+        if (len(protos) + n_genes // 2) % 2:
+            subs = [{"label": "ring", "extent": ring_extent, "sideloaded": False}]
+            protos = []
+        else:
+            subs = []
+            core_gene = genes[0]["loc"]["parts"]
+            if len(core_gene) == 1:
+                genes[0]["core"].append("ring0")
+                protos = [{"product": "ring0", "core": [list(core_gene[0])], "extent": ring_extent, "sideloaded": False,
+                           "left": 0, "right": 0}]
+        for gene in genes:
+            gene["core"] = [c for c in gene["core"] if any(p["product"] == c for p in protos)]
     late_genes = []
     if rng.random() < 0.3:
         late_genes = [g["name"] for g in genes if not g["core"] and rng.random() < 0.4]
